@@ -76,7 +76,7 @@ class Select(Factory, Container):
         return out.specialize()
 
     @staticmethod
-    def ing(quantity, cut=Count()):
+    def ing(quantity, cut=None):
         """Synonym for ``__init__``."""
         return Select(quantity, cut)
 
@@ -88,7 +88,7 @@ class Select(Factory, Container):
             return getattr(self.__dict__["cut"], attr)
         return self.__dict__[attr]
 
-    def __init__(self, quantity=identity, cut=Count()):
+    def __init__(self, quantity=identity, cut=None):
         """Create a Select that is capable of being filled and added.
 
         Parameters:
@@ -100,6 +100,9 @@ class Select(Factory, Container):
         Other Parameters:
             entries (float): the number of entries, initially 0.0.
         """
+        if cut is None:
+            # a fresh Count per Select: the cut is filled in place, so it must not be a shared default instance
+            cut = Count()
         if not isinstance(cut, Container):
             raise TypeError(f"cut ({cut}) must be a Container")
         self.entries = 0.0
